@@ -81,6 +81,8 @@ def generate(ctx):
                     d["reduction"] = "sum"
                 if "Kernel" in name and rng.random() < 0.5:
                     d["kernel"] = "osc"       # a user kernel whose sign changes with the time difference
+                d["unbound_at"] = rng.choice([None, 2, 3])
+                d["unbound_side"] = rng.choice(["u", "l"])
                 yield d
     for d in c08.generate(ctx):
         if d.get("part") == "multicell":
@@ -182,8 +184,16 @@ def _routing(ctx, desc, pre, post, rewards):
     acc = getattr(h.conn.updater, h.param)
     acc.upperbound(spy_u, 10.0)
     acc.lowerbound(spy_l, -10.0)
+    unb = {"u": False, "l": False}
     for t in range(desc["T"]):
         rdesc = {**desc, "T": t + 1}
+        if desc.get("unbound_at") == t:
+            # one half bound is taken away again (documented: passing None): that side is applied unscaled from here on, the
+            # other side still goes through its own function
+            side = desc.get("unbound_side", "u")
+            (acc.upperbound if side == "u" else acc.lowerbound)(None)
+            unb[side] = True
+            ctx.count("routing_cases_with_a_half_bound_removed")
         delays = None if h.conn.delayedby is None else h.conn.delay.detach().clone()
         reward = rewards[t] if rewards else None
         seen["u"] = seen["l"] = None
@@ -197,8 +207,16 @@ def _routing(ctx, desc, pre, post, rewards):
         ctx.count("routing_steps_checked")
         if name in tr.THREE_FACTOR and desc.get("scale", 1.0) < 0:
             ctx.count("three_factor_steps_with_negative_scale." + ("tensor_signal" if desc["reward"] == "tensor" else "scalar_signal"))
+        if (unb["u"] or unb["l"]) and not np.allclose(_np64(dparam), (epos - eneg) * (_lat_mask(h) if desc["conn"] == "lateral" else 1.0),
+                                                     rtol=1e-8, atol=1e-10):
+            return ctx.violation(f"{name}.routing.applied_change_after_removing_a_half_bound",
+                                 f"step {t}: with one half bound removed (the spies return their input) the applied change is not pos - neg", rdesc)
         for side, got, exp in (("u", seen["u"], epos), ("l", seen["l"], eneg)):
             label = "upper_bound_function" if side == "u" else "lower_bound_function"
+            if unb[side]:
+                if got is not None:
+                    return ctx.violation(f"{name}.routing.removed_{label}_still_called", f"step {t}: the {label} was removed but received a part", rdesc)
+                continue
             if got is None:
                 if exp.any():
                     return ctx.violation(f"{name}.routing.{label}_not_called", f"step {t}: expected parts never reached the {label}", rdesc)
@@ -211,6 +229,14 @@ def _routing(ctx, desc, pre, post, rewards):
             if bool(torch.isnan(v).any()) or bool((v < 0).any()):
                 return ctx.violation(f"{name}.{'potentiating' if side == 'pos' else 'depressing'}_part_negative.signs{desc['signs']}",
                                      f"a part handed over as {side} has negative elements", rdesc)
+
+
+def _np64(t):
+    return t.detach().to(torch.float64).numpy()
+
+
+def _lat_mask(h):
+    return 1.0 - np.eye(h.conn.weight.shape[0])
 
 
 def _homeostasis(ctx, desc):
